@@ -357,5 +357,29 @@ def r18_7(ctx):
              "the suggestion keeps the blanks, so every pass flags it again", ip.loc(bad[0])) if bad else ctx.ok(construct, ip.loc(defs[0]), both_sides_stripped=sorted(both)))
 
 
+def r18_8(ctx):
+    """R18.8 (a) number literals in expressions are recognised by form (isnumeric / an explicit 0x pattern), never by
+    int(text, 0), which rejects decimals with a leading zero (`0644`) - the checker would take them for lower-case config
+    names and suggest the identity forever; (b) a level that never saw a named option has no common prefix to complain
+    about: check_common_prefix returns before its length tests when the popped prefix is None."""
+    from .common import no_autodetected_base
+    repo = ctx.repo
+    no_autodetected_base(ctx, [MOD], "a decimal literal with a leading zero is not a number to int(s, 0)")
+    f = repo.func(f"{MOD}:IndentAndNameChecker.check_common_prefix")
+    ctx.analysed(f.qual)
+    fl = Flow(f.node, resolver=Resolver(f.node)).run()
+    raises = [n for n in ast.walk(f.node) if isinstance(n, ast.Raise)]
+    pops = [n for n in ast.walk(f.node) if isinstance(n, ast.Assign) and "prefix_stack.pop()" in ast.unparse(n.value)]
+    construct = "IndentAndNameChecker.check_common_prefix/a level without named options is not judged"
+    if not pops or not raises:
+        raise AnchorError("check_common_prefix: pop / raise not found")
+    v = ast.unparse(pops[0].targets[0])
+    if ast.unparse(pops[0].value) != "self.prefix_stack.pop()":
+        ctx.bad(construct, f"the popped value is rewritten (`{ast.unparse(pops[0].value)}`): `None` (no named option on this level) becomes a real, too short prefix",
+                f.loc(pops[0]))
+    else:
+        bad = [r for r in raises if (f"{v} is None", False) not in (fl.guards_at(r) or set())]
+        (ctx.bad(construct, "an error is raised although the level had no named option (popped prefix None)", f.loc(bad[0])) if bad else ctx.ok(construct, f.loc(pops[0])))
+
 def rules():
-    return [("R18.7", r18_7, 3), ("R18.1", r18_1, 3), ("R18.2", r18_2, 4), ("R18.3", r18_3, 3), ("R18.4", r18_4, 2), ("R18.5", r18_5, 4), ("R18.6", r18_6, 4)]
+    return [("R18.8", r18_8, 1), ("R18.7", r18_7, 3), ("R18.1", r18_1, 3), ("R18.2", r18_2, 4), ("R18.3", r18_3, 3), ("R18.4", r18_4, 2), ("R18.5", r18_5, 4), ("R18.6", r18_6, 4)]
